@@ -259,8 +259,11 @@ impl Ctx {
             "wall_s": (wall * 1000.0).round() / 1000.0,
             "violations": unlisted,
         });
-        std::fs::create_dir_all(format!("{}/evidence", self.root)).ok();
-        let path = format!("{}/evidence/{}.json", self.root, self.prop);
+        // (VERIF_EVIDENCE_DIR: where a run against a deliberately broken tree leaves its evidence, so that the committed
+        // files always describe the unchanged tree)
+        let evdir = std::env::var("VERIF_EVIDENCE_DIR").unwrap_or_else(|_| format!("{}/evidence", self.root));
+        std::fs::create_dir_all(&evdir).ok();
+        let path = format!("{evdir}/{}.json", self.prop);
         if let Err(e) = std::fs::write(&path, serde_json::to_string_pretty(&ev).unwrap()) {
             eprintln!("MACHINERY: cannot write evidence {path}: {e}");
             std::process::exit(2);
